@@ -113,6 +113,11 @@ def _pack(data, object_list):
     else:
         raise TypeError(str(type(data)))
 
+    # Lists and dictionaries are never part of the object list (nor replaced by a
+    # pointer): the index table only holds objects encoded with more than one byte
+    if isinstance(data, (list, dict)):
+        return packed_bytes
+
     # Reuse if in object list, otherwise add it to list
     if packed_bytes in object_list:
         object_index = object_list.index(packed_bytes)
@@ -224,18 +229,25 @@ def _unpack(data, object_list):
         value, remaining = output, ptr
         add_to_object_list = False
     elif 0xA0 <= data[0] <= 0xC0:
-        value, remaining = object_list[data[0] - 0xA0], data[1:]
+        value, remaining = object_list[data[0] - 0xA0][1], data[1:]
+        add_to_object_list = False
     elif 0xC1 <= data[0] <= 0xC4:
         length = data[0] - 0xC0
         uid, remaining = (
             int.from_bytes(data[1 : 1 + length], byteorder="little"),
             data[1 + length :],
         )
-        value = object_list[uid]
+        value = object_list[uid][1]
+        add_to_object_list = False
     else:
         raise TypeError(hex(data[0]))
 
-    if add_to_object_list and value not in object_list:
-        object_list.append(value)
+    # The object list mirrors the one built by _pack: one entry per distinct encoded
+    # object of more than one byte (identified by its encoding, not by ==/hash of the
+    # decoded value as e.g. 255 == 255.0 and 0.0 == -0.0)
+    if add_to_object_list:
+        encoded = bytes(data[: len(data) - len(remaining)])
+        if len(encoded) > 1 and all(encoded != entry[0] for entry in object_list):
+            object_list.append((encoded, value))
 
     return value, remaining
